@@ -485,6 +485,8 @@ Proof. intros hash c ops Hc Hh. rewrite (array_refines_bl c ops Hc). apply (bl_r
 (* the executable representation invariant / abstraction check can never fail either (its observation part) *)
 From Bfe Require Import run.RunC20.
 
+Lemma some_inj' {A} (x y : A) : Some x = Some y -> x = y.
+Proof. intros H. injection H. auto. Qed.
 Lemma sp_check_run c : forall ops s, sp_check c s ops (sp_run c s ops) = true.
 Proof.
   induction ops as [|o r IH]; intros s; [reflexivity|]. cbn [sp_check sp_run].
@@ -493,13 +495,100 @@ Qed.
 Lemma all_some_map_Z l : all_some (map as_Z (map VZ l)) = Some l.
 Proof. induction l as [|x l IH]; [reflexivity|]. cbn [map all_some as_Z]. rewrite IH. reflexivity. Qed.
 
-Theorem prop_C20_of_model : forall v c ops (hash : key -> Z),
-  dec_input v = Some (c, ops) -> Forall (consistent hash) ops -> prop_C20 v (run_C20 v) = true.
+(* ---- a functional hash column is the graph of a hash function ---- *)
+Definition hash_of (l : list (key * Z)) (k : key) : Z :=
+  match find (fun p => key_eqb k (fst p)) l with Some p => snd p | None => 0 end.
+Lemma functional_lookup l : functional_b l = true -> forall p, In p l -> hash_of l (fst p) = snd p.
 Proof.
-  intros v c ops hash Hd Hh. unfold prop_C20, run_C20. rewrite Hd.
+  intros Hf p Hp. unfold hash_of. destruct (find (fun q => key_eqb (fst p) (fst q)) l) as [q|] eqn:E.
+  - apply find_some in E. destruct E as [Hq Hk]. unfold functional_b in Hf. rewrite forallb_forall in Hf.
+    specialize (Hf p Hp). rewrite forallb_forall in Hf. specialize (Hf q Hq). rewrite Hk in Hf. cbn [negb orb] in Hf. lia.
+  - exfalso. pose proof (find_none _ _ E p Hp) as H. cbn beta in H.
+    assert (key_eqb (fst p) (fst p) = true) by (apply key_eqb_eq; reflexivity). congruence.
+Qed.
+Lemma functional_consistent ops : functional_b (kh ops) = true -> Forall (consistent (hash_of (kh ops))) ops.
+Proof.
+  intros Hf. apply Forall_forall. intros o Ho.
+  assert (Hin : forall p, In p (op_kh o) -> In p (kh ops)).
+  { intros p Hp. unfold kh. apply in_flat_map. exists o. tauto. }
+  destruct o as [k h | k h | k h |]; cbn [consistent]; auto;
+    symmetry; apply (functional_lookup _ Hf (k, h)); apply Hin; left; reflexivity.
+Qed.
+
+(* ---- byte pools used directly: slots = last-write-wins map ---- *)
+Lemma pool_refines c : forall ops sl m,
+  lenZ sl = cap c -> (forall j, 0 <= j < cap c -> getK sl j = alookup j m (pool_default c)) ->
+  forallb pop_ok ops = true -> pool_run c sl ops = psp_run c m ops.
+Proof.
+  induction ops as [|o r IH]; intros sl m Hl Hm Hok; [reflexivity|].
+  cbn [forallb] in Hok. apply andb_true_iff in Hok. destruct Hok as [Ho Hr]. cbn [pool_run psp_run].
+  destruct o as [idx k | idx |]; cbn [pool_step psp_step pop_ok] in *.
+  - destruct (cap c <=? idx) eqn:E; [f_equal; apply IH; assumption|].
+    destruct (pool_accepts c k); [|f_equal; apply IH; assumption].
+    f_equal. apply IH; [unfold lenZ in *; rewrite upd_length; exact Hl | | exact Hr].
+    intros j Hj. cbn [alookup]. destruct (j =? idx) eqn:Ej.
+    + assert (j = idx) by lia. subst j. apply getK_upd_same. lia.
+    + rewrite getK_upd_other by lia. apply Hm. exact Hj.
+  - destruct (cap c <=? idx) eqn:E; [f_equal; apply IH; assumption|].
+    rewrite (Hm idx) by lia. f_equal. apply IH; assumption.
+  - f_equal. apply IH; assumption.
+Qed.
+Lemma pool_init_get c j : 0 <= j < cap c -> getK (pool_init c) j = pool_default c.
+Proof.
+  intros Hj. unfold pool_init, init, getK, pool_default. cbn [slots].
+  rewrite (nth_indep _ [] (if fixed c then repeat 0 (Z.to_nat (ksz c)) else [])) by (rewrite repeat_length; lia).
+  apply nth_repeat.
+Qed.
+Lemma dec_pop_ok : forall vs ops, all_some (map dec_pop vs) = Some ops -> forallb pop_ok ops = true.
+Proof.
+  induction vs as [|v vs IH]; intros ops H; cbn [map all_some] in H.
+  - apply some_inj' in H. subst. reflexivity.
+  - destruct (dec_pop v) as [o|] eqn:Eo; [|discriminate].
+    destruct (all_some (map dec_pop vs)) as [r|] eqn:Er; [|discriminate].
+    apply some_inj' in H. subst ops. cbn [forallb]. rewrite (IH r eq_refl), andb_true_r.
+    unfold dec_pop in Eo.
+    repeat match type of Eo with
+           | match ?x with _ => _ end = _ => destruct x eqn:?; try discriminate
+           end; apply some_inj' in Eo; subst o; cbn [pop_ok]; auto.
+Qed.
+
+Theorem pool_prop_of_model : forall v, is_pool v = true -> dec_pool v <> None -> prop_pool v (run_pool v) = true.
+Proof.
+  intros v _ Hd. unfold prop_pool, run_pool. destruct (dec_pool v) as [[c ops]|] eqn:E; [|congruence].
+  destruct (cfg_ok c) eqn:Eok; [|reflexivity].
+  assert (Hok : forallb pop_ok ops = true).
+  { unfold dec_pool in E.
+    repeat match type of E with
+           | match ?x with _ => _ end = _ => destruct x eqn:?; try discriminate
+           end.
+    apply some_inj' in E. inversion E; subst. eapply dec_pop_ok; eauto. }
+  rewrite (pool_refines c ops (pool_init c) []); [apply val_eqb_refl | | | exact Hok].
+  - unfold pool_init, init, lenZ. cbn [slots]. rewrite repeat_length. unfold cfg_ok in Eok. lia.
+  - intros j Hj. rewrite (pool_init_get c j Hj). reflexivity.
+Qed.
+
+Theorem set_prop_of_model : forall v c ops (hash : key -> Z),
+  dec_input v = Some (c, ops) -> Forall (consistent hash) ops -> prop_set v (run_set v) = true.
+Proof.
+  intros v c ops hash Hd Hh. unfold prop_set, run_set. rewrite Hd.
   destruct (cfg_ok c) eqn:Eok; [|reflexivity].
   assert (Hc : 0 < cap c) by (unfold cfg_ok in Eok; lia).
   pose proof (array_refines_set hash c ops Hc Hh) as Hr.
   destruct (run_ops c (init c) ops) as [s obs]. cbn [snd] in Hr. subst obs.
   unfold as_LZ, vLZ. rewrite all_some_map_Z. apply sp_check_run.
 Qed.
+
+(* CENTRAL: the model satisfies the executable property on every well-formed wire input *)
+Theorem prop_C20_of_model : forall v, wf_C20 v = true -> kf_C20 v = 0 -> prop_C20 v (run_C20 v) = true.
+Proof.
+  intros v Hwf _. unfold wf_C20, prop_C20, run_C20 in *. destruct (is_pool v) eqn:Ep.
+  - apply pool_prop_of_model; [exact Ep|]. destruct (dec_pool v); [discriminate | discriminate].
+  - destruct (dec_input v) as [[c ops]|] eqn:Ed; [|discriminate].
+    eapply set_prop_of_model; [exact Ed | apply functional_consistent; exact Hwf].
+Qed.
+
+Lemma wf_C20_example :
+  wf_C20 (VL [VZ 2; VZ 2; VZ 1; VZ 3; VL [VL [VZ 1; VB [1;1]; VZ 1]; VL [VZ 1; VB [1]; VZ 1]; VL [VZ 4];
+              VL [VZ 3; VB [1]; VZ 1]; VL [VZ 2; VB [1;1]; VZ 1]; VL [VZ 1; VB [0]; VZ 0]; VL [VZ 3; VB [1;1]; VZ 1]; VL [VZ 4]]]) = true
+  /\ wf_C20 (VL [VZ 2; VZ 2; VZ 1; VZ (-1); VL [VL [VZ 1; VZ 0; VB [1;1]]; VL [VZ 2; VZ 0]; VL [VZ 1; VZ 2; VB [1;1]]; VL [VZ 3]]]) = true.
+Proof. split; reflexivity. Qed.
